@@ -38,6 +38,28 @@ Definition attrs_only (b tn : table_def) : bool :=
   | g => (forallb is_attr_action g && nodup_str (colnames b)
           && forallb default_renders (t_columns tn))%bool
   end.
+(* a column without inline declarations *)
+Definition plain (c : column_def) : bool :=
+  match c_primary_key c, c_unique c, c_index c, c_foreign_key c with
+  | None, None, None, None => true
+  | _, _, _, _ => false
+  end.
+Definition is_grow_action (a : action) : bool :=
+  match a with
+  | ModifyColumnType _ _ _ _ | ModifyColumnNullable _ _ _ _
+  | ModifyColumnDefault _ _ _ | ModifyColumnComment _ _ _ => true
+  | AddConstraint _ _ => true
+  | AddColumn _ c _ => plain c
+  | _ => false
+  end.
+(* like attrs_only, and the group may also add constraints and add columns that carry no inline
+   declaration (nothing is dropped: no DeleteColumn, no RemoveConstraint) *)
+Definition grow_only (b tn : table_def) : bool :=
+  match table_group (t_name b) b tn with
+  | [] => true
+  | g => (forallb is_grow_action g && nodup_str (colnames b)
+          && forallb default_renders (t_columns tn))%bool
+  end.
 Definition unchanged (b tn : table_def) : bool :=
   match table_group (t_name b) b tn with [] => true | _ => false end.
 
@@ -47,9 +69,88 @@ Definition common_tables (p : table_def -> table_def -> bool) (B T : schema) : b
                     | Some b => match normalize t with Ok tn => p b tn | Err _ => false end
                     end) T.
 
+(* ---------- per-table semantics of actions (used by the proofs and by c01_local) ---------- *)
+(* the per-table function of every action that goes through update_table *)
+Definition table_fn (a : action) (t : table_def) : result table_def planner_error :=
+  match a with
+  | AddColumn table column _ =>
+      if has_column (c_name column) t then Err (ColumnExists table (c_name column))
+      else match normalize (mkTable (t_name t) (t_description t) (t_columns t ++ [column]) (t_constraints t)) with
+           | Err _ => Err TableValidation
+           | Ok n => Ok n
+           end
+  | RenameColumn table from to =>
+      match update_first_col from (set_name to) (t_columns t) with
+      | None => Err (ColumnNotFound table from)
+      | Some cols => Ok (mkTable (t_name t) (t_description t) cols
+                           (map (rename_column_in_constraint from to) (t_constraints t)))
+      end
+  | DeleteColumn table column =>
+      if has_column column t then
+        Ok (mkTable (t_name t) (t_description t)
+              (filter (fun c => negb (String.eqb (c_name c) column)) (t_columns t))
+              (drop_column_from_constraints column (t_constraints t)))
+      else Err (ColumnNotFound table column)
+  | ModifyColumnType table column new_type _ => update_column table column (set_type new_type) t
+  | ModifyColumnNullable table column nullable _ => update_column table column (set_nullable nullable) t
+  | ModifyColumnDefault table column new_default =>
+      update_column table column (set_default (option_map default_of_string new_default)) t
+  | ModifyColumnComment table column new_comment => update_column table column (set_comment new_comment) t
+  | AddConstraint table k =>
+      if contains_constraint k (t_constraints t) then Ok t
+      else Ok (mkTable (t_name t) (t_description t) (t_columns t) (t_constraints t ++ [k]))
+  | RemoveConstraint table k =>
+      Ok (mkTable (t_name t) (t_description t)
+            (clear_inline table k (t_columns t))
+            (filter (fun c => negb (constraint_eqb c k)) (t_constraints t)))
+  | _ => Ok t
+  end.
+
+Definition act_table (a : action) : option string :=
+  match a with
+  | CreateTable t _ _ | DeleteTable t | AddColumn t _ _ | RenameColumn t _ _ | DeleteColumn t _
+  | ModifyColumnType t _ _ _ | ModifyColumnNullable t _ _ _ | ModifyColumnDefault t _ _
+  | ModifyColumnComment t _ _ | AddConstraint t _ | RemoveConstraint t _ => Some t
+  | RenameTable _ _ | RawSql _ => None
+  end.
+Definition on_table (n : string) (a : action) : bool :=
+  match act_table a with Some t => String.eqb t n | None => false end.
+
+(* what an action does to the table registered under its name (None: no such table) *)
+Definition apply_table (o : option table_def) (a : action) : result (option table_def) planner_error :=
+  match a with
+  | CreateTable table columns constraints =>
+      match o with
+      | Some _ => Err (TableExists table)
+      | None => match normalize (mkTable table None columns constraints) with
+                | Err _ => Err TableValidation
+                | Ok n => Ok (Some n)
+                end
+      end
+  | DeleteTable table => match o with Some _ => Ok None | None => Err (TableNotFound table) end
+  | RenameTable _ _ | RawSql _ => Ok o
+  | _ => match o with
+         | None => Err (TableNotFound "")
+         | Some t => match table_fn a t with Ok t' => Ok (Some t') | Err e => Err e end
+         end
+  end.
+Fixpoint proj_all (o : option table_def) (l : list action) : result (option table_def) planner_error :=
+  match l with
+  | [] => Ok o
+  | a :: r => match apply_table o a with Ok o' => proj_all o' r | Err e => Err e end
+  end.
+
+
 (* general step: tables created / dropped freely, surviving tables unchanged or attribute-modified *)
 Definition c01_step (B T : schema) : bool :=
   (baseline_ok B && nodup_str (map t_name T) && diff_ok B T && common_tables attrs_only B T)%bool.
+
+(* what is asked of the models at one step, given a per-table condition p *)
+Definition c01_models (p : table_def -> table_def -> bool) (B T : schema) : bool :=
+  (nodup_str (map t_name T) && diff_ok B T && common_tables p B T)%bool.
+(* tables created / dropped freely; surviving tables unchanged, attribute-modified, or grown by plain
+   columns and constraints *)
+Definition c01_grow (B T : schema) : bool := (baseline_ok B && c01_models grow_only B T)%bool.
 
 Definition c01_first (B T : schema) : bool :=
   match B with [] => (nodup_str (map t_name T) && diff_ok [] T)%bool | _ => false end.
@@ -62,8 +163,31 @@ Definition same_table_names (B T : schema) : bool :=
 Definition c01_column_attrs (B T : schema) : bool :=
   (same_table_names B T && c01_step B T)%bool.
 
+(* ---------- reduction to single tables ---------- *)
+(* the subsequence of the plan that names table n, run on the baseline's table n alone, ends in a
+   normalisation fix-point for which the planner sees no difference to the normalised model table n
+   (or in no table when the models have none) *)
+Definition local_ok (B Tn : schema) (acts : list action) (n : string) : bool :=
+  match proj_all (find_t n B) (filter (on_table n) acts) with
+  | Err _ => false
+  | Ok o =>
+      match o, find_t n Tn with
+      | None, None => true
+      | Some t', Some tn => (String.eqb (t_name t') n && is_fixpoint t' && unchanged t' tn)%bool
+      | _, _ => false
+      end
+  end.
+Definition c01_local (B T : schema) : bool :=
+  (baseline_ok B && nodup_str (map t_name T) &&
+   match diff_actions B T, normalize_all T with
+   | Ok acts, Ok Tn => forallb (local_ok B Tn acts) (map t_name B ++ map t_name T)
+   | _, _ => false
+   end)%bool.
+
 (* ---------- lifted to correspondence cases ---------- *)
 Definition hyp_C01_first (c : m1_case) : bool := c01_first (baseline_of c) (k_models c).
 Definition hyp_C01_tables_only (c : m1_case) : bool := c01_tables_only (baseline_of c) (k_models c).
 Definition hyp_C01_column_attrs (c : m1_case) : bool := c01_column_attrs (baseline_of c) (k_models c).
 Definition hyp_C01_step (c : m1_case) : bool := c01_step (baseline_of c) (k_models c).
+Definition hyp_C01_local (c : m1_case) : bool := c01_local (baseline_of c) (k_models c).
+Definition hyp_C01_grow (c : m1_case) : bool := c01_grow (baseline_of c) (k_models c).
